@@ -17,7 +17,7 @@ func init() {
 		Explanation: "Decides the structural clauses of the receiver ratchet from the SSA of pkg/secretstore: (D1) the stored chain key only moves forward (abstract evaluation of the updater over {new<stored,=,>}); (D2) registration is once-only: every write of registration (precomputed window, chain key) is dominated by the 'no chain key stored' outcome of the lookup, and the 'already registered' outcome returns success without any write; (D3) the window created at registration: the precompute loop, evaluated abstractly with window sizes 1..3, derives exactly window-size keys and returns the chain key at counter c+window, the window is persisted before returning, and the chain key stored by registration is that returned value; (D4) slide by one per newly opened message: the post-decryption step writes exactly one next key outside any loop, for the same counter value (stored+1) that it puts in the chain key it returns; (D5) re-reads keep working: key saved by CID before the precomputed key is deleted, the deleted key is the one at the opened header's counter, and the by-CID lookup is tried first with the precomputed lookup only on its miss side, keyed by the header's device and counter. Not decided: the window inequality for all permutations with repetition (loop arithmetic over runtime history), one-wayness of the KDF.",
 		Trusted:     []string{"go/ssa (x/tools v0.29.0)", "HKDF one-wayness", "effects identified by the namespace constants of pkg/secretstore"},
 		Assumptions: []string{"the evaluator's window sizes 1..3 are representative of the loop's counting form (the loop body is the same for every size)"},
-		Floors:      map[string]int{"D1": 3, "D2": 3, "D3": 4, "D4": 2, "D5": 4},
+		Floors:      map[string]int{"D1": 4, "D2": 3, "D3": 4, "D4": 2, "D5": 4},
 		Run:         runC02,
 	})
 }
